@@ -162,10 +162,19 @@ def w_bands(case):
         rows = rows[::-1]
     elif ro == 'interleaved':
         rows = rows[1::2] + rows[0::2]
-    # an unrelated observable must not leak into the bands
-    rows.append({'Time': case['samples'][0][0], 'Observable': 'other',
-                 'Value': 99.0, 'Dose': np.nan, 'Duration': np.nan})
+    if case.get('nan_rows'):
+        # samples with a missing value
+        for t, _ in case['samples']:
+            rows.insert(len(rows) // 2, {'Time': t, 'Observable': 'x',
+                                         'Value': np.nan, 'Dose': np.nan,
+                                         'Duration': np.nan})
+    if not case.get('single_obs'):
+        # an unrelated observable must not leak into the bands
+        rows.append({'Time': case['samples'][0][0], 'Observable': 'other',
+                     'Value': 99.0, 'Dose': np.nan, 'Duration': np.nan})
     df = pd.DataFrame(rows)
+    if case.get('single_obs') and case['cls'] == 'PDPP':
+        df = df.drop(columns=['Dose', 'Duration'])
     before = df.copy(deep=True)
     cls = getattr(chi.plots, CLASSES[case['cls']])
     fig = cls()
@@ -260,7 +269,9 @@ def build(tier, seed):
         [[1], [2, 1], ['a', 1]]
     for cls in CLASSES:
         for ids in id_sets:
-            for n_obs in (1, 2):
+            for n_obs, undosed_last in ((1, False), (2, False), (1, True)):
+                if undosed_last and (cls not in ('PKTS', 'PKPP') or len(ids) < 2):
+                    continue
                 base = []
                 for k, _id in enumerate(ids):
                     # time multiset with a tie, values with a tie and a NaN
@@ -270,7 +281,8 @@ def build(tier, seed):
                         base.append([_id, 2.0, 'A', None, None, None])
                     if n_obs == 2:
                         base.append([_id, 1.0 + k, 'B', 7.0 + k, None, None])
-                    if cls in ('PKTS', 'PKPP'):
+                    if cls in ('PKTS', 'PKPP') and not (undosed_last and
+                                                        k == len(ids) - 1):
                         base.append([_id, 0.0, None, None, 2.0 + k, 0.5])
                         if k == 1:
                             base.append([_id, 1.0, None, None, 3.0, 0.25])
@@ -332,6 +344,20 @@ def build(tier, seed):
                              [1.5, [v * 3.0 for v in second]]]
                     c['earlier'] = shift
                 bands.append(c)
+    # larger sample sets with different numbers of samples per time point, frames
+    # holding only the plotted observable, missing sample values
+    for cls in ('PDPP', 'PKPP'):
+        for n0, n1 in ((10, 20), (20, 10), (7, 13), (13, 7), (25, 25)):
+            for ps in ([0.5], [0.9], [0.3, 0.6, 0.9], [0.1, 0.8]):
+                for k_, (single, nan_rows) in enumerate(
+                        ((False, False), (True, False), (True, True),
+                         (False, True))):
+                    bands.append({
+                        'cls': cls, 'probs': ps, 'single_obs': single,
+                        'nan_rows': nan_rows,
+                        'samples': [[0.5, [float(v) for v in range(1, n0 + 1)]],
+                                    [1.5, [0.5 * v for v in range(1, n1 + 1)]]],
+                        'row_order': ['asc', 'desc', 'interleaved'][k_ % 3]})
     return {
         'parts': [
             Part('data', data, w_data, 'figure class x ID sets x observables x row '
